@@ -154,6 +154,13 @@ def s_loop(rng, nval):
     body = [["place", "l", "small-lamp", ["b", "*", ["v", "i"], ["n", 4]], ["n", 20], None],
             ["set", "l", "enable", ["c", ">", ["v", "a"], ["b", "+", ["b", op, ["b", "-", ["v", "i"], ["n", 2]], ["n", K]], ["n", c]]]]]
     prog = [["input", "a", types.fresh(), 0], ["for", "i", ["range", 0, 5, None], body]]
+    if rng.random() < 0.4:
+        # a body-local int with the name of a top-level int constant: the folder must use the local one in the body
+        # (the lamp positions keep using the iterator, so a wrong resolution shows as a wrong threshold, not as
+        # overlapping lamps)
+        body[1][3][3] = ["b", "+", ["b", op, ["b", "-", ["v", "w"], ["n", 2]], ["n", K]], ["n", c]]
+        body.insert(0, ["int", "w", ["b", "+", ["v", "i"], ["n", 0]]])
+        prog.insert(rng.choice([1, 2]), ["int", "w", ["n", rng.choice([50, -9, 1000, 7])]])
     edges = {"a": [0, 1, -1, c, c + 1, c - 1, INT_MAX, INT_MIN + 1, K, -K if K != INT_MIN else 0]}
     return _mk(prog, "loop_iterator_arithmetic", rng, nval, edges=edges)
 
